@@ -99,6 +99,8 @@ func cmdSnapshotNames(args []string) {
 	}
 	b, _ := json.MarshalIndent(g.snapshotNames(), "", " ")
 	os.WriteFile(namesPath, b, 0o644)
+	fb, _ := json.MarshalIndent(g.snapshotFuncs(), "", " ")
+	os.WriteFile(funcsPath, fb, 0o644)
 }
 
 // computeAliases fills g.alias: function key -> (name used by the contracts -> current name).
